@@ -20,3 +20,13 @@ claim('C02', 'proof',
       "ASSUMED, not proved: scipy.integrate.ode / odeint started on the trajectory reach the exact solution at the requested time (accuracy within atol=rtol=1e-10 and the semigroup law); `r.y` is a reference to the integrator's buffer. The accuracy clause of the property rests on this assumption; the stand-in compares with closed-form flows at 1e-6. Real arithmetic; termination not proved.",
       "contract-based deductive verification (loop invariant with buffer ownership over the real stepping loop, wiring VCs), native replay against closed-form flows",
       "DESIGN.md 4/C02")
+claim('C01', 'proof',
+      "For every well-formed model view (any number of states, events, transitions per event, ODE terms) the symbolic right-hand side, state-change matrix, event-rate vector and explicit-term vector are proved, under every valuation, to equal the sums the property states (nested loop invariants with partial sums over the real generator loops); the compile wrapper is proved to pass the argument sequence through and to give the documented rank and element order; every evaluator is proved to be registered with its own generator and an output type that yields the rank its consumers need for every model size.",
+      "checkEquation/_addSymbol are trusted leaves (Parse(string)); sympy ring operations, matrix item assignment and lambdify/autowrap realise the expression (both back ends are an assumption, monitored by the stand-in); real arithmetic. The identity ode = vMat.rates + explicit follows from the three proved sums by distributivity (not separately mechanised).",
+      "contract-based deductive verification (loop invariants over uninterpreted expression algebra with a ring-homomorphic valuation), bounded native stand-in as replay",
+      "DESIGN.md 4/C01")
+claim('C03', 'proof',
+      "Each derivative generator (jacobian, grad, grad_jacobian, diff_jacobian, transitionJacobian, transitionMean, transitionVar) is proved cell by cell, for any number of states, parameters and events, to hold the stated derivative / sum at the stated row and column (declaration order), including the stacking order of the block matrices; rank and element order of the numeric evaluators come from the compile-chain contracts.",
+      "sympy.diff / Matrix.jacobian are the derivative (uninterpreted D); the valuation is a ring homomorphism; 'away from singularities' is the domain of the valuation; compile back ends assumed as in C01.",
+      "contract-based deductive verification (multi-level loop invariants, injectivity lemma for block indices), bounded native stand-in as replay",
+      "DESIGN.md 4/C03")
